@@ -195,12 +195,13 @@ class Prog:
                 kw[k] = None if not req.get("empty_nonnull") else []
         return kw
 
-    def put(self, fm, rank, req, nview, f="f0", coll=False, api="put", sn=None, step=False, expect=0, apply=True, reqslot=None):
+    def put(self, fm, rank, req, nview, f="f0", coll=False, api="put", sn=None, step=False, expect=0, apply=True, reqslot=None, values=None):
         """emit a put-family statement for `rank`; applies the write to the model if apply.
         returns (n, slot, values)"""
         v = fm.vars[req["var"]]
         idx, mempos, nlog = req_geometry(fm, req, nview)
-        values = M.value_pattern(req["seed"], len(idx), v.xt, M.mt_key(req), req.get("vclass", "pos"))
+        if values is None:
+            values = M.value_pattern(req["seed"], len(idx), v.xt, M.mt_key(req), req.get("vclass", "pos"))
         slot, offs, bkw, size, md, phys = self._buffer(rank, fm, req, nview, idx, mempos, nlog, values)
         kw = self._index_args(fm, req, rank, idx)
         kw.update(bkw)
